@@ -6,7 +6,7 @@ import SimuVerif.Model.Schedule
   request:  run <T> <dt> <S> <fuel> n0 (id)^n0 K ( nmid (id)^nmid ndead (id)^ndead )^K
             T, dt, S as 16-digit hex doubles; the rest natural numbers: initial cell ids, then for each of the
             first K iterations the OBSERVED cell list after the divider and the OBSERVED removed cells
-            (iterations beyond K: nothing divides, nothing is removed)
+            (the check always sends the whole observed run, K = number of executed iterations)
   answer:   "it k tb ta fn n ids.."        one line per iteration of the model: iteration, time before / after, file number, cells at the end
             "file k number n ids.."        every pair of mesh files, in writing order
             "stat k t n ids.."             every write_data call, in order
@@ -57,7 +57,6 @@ def answer (ws : List String) : List String :=
         | some (evs, []) =>
           let arr := evs.toArray
           let hist : Nat → Event := fun i => arr.getD i { mid := [], dead := [] }
-          -- an unobserved iteration in which the divider is called keeps the population: give it the current list
           let P : Params Float := { T := T, dt := dt, S := S }
           let r := run Fn.float P init hist fuel
           let (s, lines) := traceLoop P hist fuel (St.init init) #[]
